@@ -272,7 +272,45 @@ func solo(sc *scenario, i int) soloInfo {
 	return info
 }
 
+// firstUse: the very first library calls of this (fresh) worker process are made inside monitored
+// threads, so that lazily initialised package-level state is written while the monitor watches.
+func firstUse(c *shardCtx) {
+	exprs := []string{"sort_by(a, &k)[0].k", "a[*].k | [0]", "length(@)", "a[?k > `1`].t", "*.a", "`[1, 2]`[0]", "'raw' || a", "a.b.c", "{x: a, y: b}", "[a, b][]", "a[::-1]", "!a && b", "to_string(@)", "max_by(a, &k)", "keys(@)", "\"q\".a"}
+	expr := exprs[c.shard%len(exprs)]
+	globals := jmespath.VerifGlobals()
+	sc := scenario{"S0 first library calls of the process (Compile + Search) in two threads", expr, func() (*scState, []func() interface{}) {
+		st := &scState{}
+		d := jdoc(0)
+		st.docs = []interface{}{d}
+		st.shared = snap.Roots{{Name: "globals", V: globals}, {Name: "doc", V: d}}
+		body := func() interface{} {
+			jp, err, pn := impl.Compile(expr)
+			if pn != nil || err != nil {
+				return "COMPILE-FAILED"
+			}
+			res, serr, spn := impl.Search(jp, d)
+			return resKey(res, serr, spn)
+		}
+		return st, []func() interface{}{body, body}
+	}, 2}
+	c.add("scenarios", 1)
+	info := solo(&sc, 0)
+	c.add("solo_runs", 1)
+	c.add("monitor_points", int64(info.points))
+	if len(info.writes) > 0 {
+		w := info.writes[0]
+		site := w[:strings.Index(w, ": ")]
+		c.report(harness.Violation{Kind: "race", Signature: "unsynchronised-shared-write@" + site,
+			Input:    map[string]interface{}{"expression": expr, "scenario": sc.name},
+			Expected: "package-level state is initialised before use or under synchronisation",
+			Observed: "the first Compile/Search of the process writes package-level state without synchronisation (two goroutines making their first calls race on it): " + strings.Join(info.writes, " | "), Site: site})
+	} else if info.locked == 0 && info.syncOps == 0 {
+		c.add("scenarios_decided_by_reduction", 1)
+	}
+}
+
 func workC12(c *shardCtx) {
+	firstUse(c) // must come before any other library call of this process
 	wf := 3
 	if c.thorough() {
 		wf = 4
